@@ -18,6 +18,14 @@ def IsNearest (q n d : Int) : Prop := 2 * abs (n - q * d) ≤ abs d
 /-- `q` is within one unit of the rational `n / d` -/
 def IsWithinOne (q n d : Int) : Prop := abs (n - q * d) ≤ abs d
 
+/-- `q` is within `1/2 + 2/65536` unit of the rational `n / d`:  `|q − n/d| ≤ 32770/65536`
+    (a nearest rounding of a quotient that is itself off by at most 2⁻¹⁵) -/
+def IsWithinHalfPlus (q n d : Int) : Prop := 65536 * abs (n - q * d) ≤ 32770 * abs d
+
+/-- the rational `n / d` (`d ≠ 0`) lies in the closed interval `[lo, hi]` -/
+def QuotInRange (n d lo hi : Int) : Prop :=
+  if 0 < d then lo * d ≤ n ∧ n ≤ hi * d else lo * (-d) ≤ -n ∧ -n ≤ hi * (-d)
+
 /-- representable as `pixman_fixed_t` -/
 def Rep32 (x : Int) : Prop := -2147483648 ≤ x ∧ x ≤ 2147483647
 
